@@ -107,7 +107,11 @@ def _bits_of(*words):
 
 
 def design_checks(tier):
-    return [dict(module="FontInfoMC", cfg="FontInfoMC.cfg", workers=8, timeout=300)]
+    # InfoOverrides: several variable fonts recompiling their info from a shared base master, one after the other -- holds
+    # when the temporary info object is a copy; the aliasing design (seeded C08-c / C16-g) must fail
+    return [dict(module="FontInfoMC", cfg="FontInfoMC.cfg", workers=8, timeout=300),
+            dict(module="InfoOverrides", cfg="InfoOverrides.cfg", workers=2, timeout=120),
+            dict(module="InfoOverrides", cfg="InfoOverrides_alias.cfg", workers=2, timeout=120, expect_violation="OwnOverridesOnly")]
 
 
 def cases(tier, seed):
